@@ -217,9 +217,11 @@ func verifC29Gen(r *verifutil.Rand, i int, thorough bool) []string {
 	for k := 0; k < ng; k++ {
 		a := pick()
 		var d int64
-		switch r.Intn(6) {
+		switch r.Intn(7) {
 		case 0:
 			d = int64(1 + r.Intn(50))
+		case 6: // very long windows over a short recording: 1 h, 28 h, 30 h, 60 h, 1000 h, the longest time.Duration
+			d = []int64{3600000, 100800000, 108000000, 216000000, 3600000000, 9223372036854}[r.Intn(6)]
 		case 1:
 			d = 100000
 		case 2:
